@@ -781,13 +781,22 @@ func (e *c09Env) opBatch(rs []router.KeyRange, needLeader bool) {
 		return "ok " + c09Locs(ls)
 	})
 }
-func (e *c09Env) opGroup(keys [][]byte) {
+// c09EqualRegionStartKey is tikv.equalRegionStartKey, the only filter GroupKeysByRegion is called with (split keys that
+// are already region boundaries are skipped)
+func c09EqualRegionStartKey(key, regionStartKey []byte) bool { return bytes.Equal(key, regionStartKey) }
+func (e *c09Env) opGroup(keys [][]byte) { e.opGroupF(keys, false) }
+func (e *c09Env) opGroupF(keys [][]byte, filtered bool) {
 	ks := make([]string, len(keys))
 	for i, k := range keys {
 		ks[i] = c09hx(k)
 	}
-	e.op("group", []string{strings.Join(ks, ";")}, func() string {
-		g, first, err := e.cache.GroupKeysByRegion(e.bo(), keys, nil)
+	name := "group"
+	var filter func(key, regionStartKey []byte) bool
+	if filtered {
+		name, filter = "groupf", c09EqualRegionStartKey
+	}
+	e.op(name, []string{strings.Join(ks, ";")}, func() string {
+		g, first, err := e.cache.GroupKeysByRegion(e.bo(), keys, filter)
 		if err != nil {
 			return c09Err(err)
 		}
@@ -1224,7 +1233,7 @@ func (e *c09Env) lookup() {
 				ks = append(ks, e.key())
 			}
 		}
-		e.opGroup(ks)
+		e.opGroupF(ks, e.rng.Intn(5) < 2)
 	case x < 85:
 		s, t := e.keyRange()
 		if len(t) == 0 {
@@ -1908,6 +1917,40 @@ func VerifC09Main(args []string) int {
 			} else {
 				fmt.Fprintf(w, "PROBE\tseed=%d\tpeer=%d accessIdx=%d\n", seed, ctx.Peer.GetId(), int(ctx.AccessIdx))
 			}
+		}
+		return 0
+	}
+	if len(args) >= 1 && args[0] == "probe-groupfilter" {
+		// two regions [-inf,m) and [m,+inf); GroupKeysByRegion with tikv.equalRegionStartKey as filter
+		e := c09NewEnv(w, 1, -1, false)
+		rs := e.regions()
+		e.cluster.SplitRaw(rs[0].meta.Id, e.cluster.AllocID(), []byte("m"), e.cluster.AllocIDs(len(rs[0].meta.Peers)), 0)
+		for _, r := range e.regions() {
+			if r.leader.GetId() == 0 {
+				e.cluster.ChangeLeader(r.meta.Id, r.meta.Peers[0].Id)
+			}
+		}
+		e.pdw.snapshot()
+		for _, keys := range [][]string{{"m", "x"}, {"x", "m"}, {"m", "m"}, {"a", "m"}} {
+			var ks [][]byte
+			for _, k := range keys {
+				ks = append(ks, []byte(k))
+			}
+			e.cache.mu.Lock()
+			e.cache.mu.regions = make(map[RegionVerID]*Region)
+			e.cache.mu.latestVersions = make(map[uint64]RegionVerID)
+			e.cache.mu.sorted = NewSortedRegions(btreeDegree)
+			e.cache.mu.Unlock()
+			g, first, err := e.cache.GroupKeysByRegion(e.bo(), ks, c09EqualRegionStartKey)
+			var out []string
+			for v, kk := range g {
+				loc, _ := e.cache.LocateRegionByID(e.bo(), v.GetID())
+				for _, k := range kk {
+					out = append(out, fmt.Sprintf("%s->region %d [%s,%s)", k, v.GetID(), loc.StartKey, loc.EndKey))
+				}
+			}
+			sort.Strings(out)
+			fmt.Fprintf(w, "PROBE\tkeys=%v\tfirst=%d\tgroups=%v\terr=%v\n", keys, first.GetID(), out, err)
 		}
 		return 0
 	}
